@@ -9,6 +9,18 @@ CLAIMED = {
    text="Seeded search over operation histories (add/sample/enumerate/select/len/pickle-restart) of the real buffer classes with the generator behind a seam, checked operation by operation against a list reference; every valid slot is enumerated through the generator stub. Sampling of histories, not proof.",
    note="Trusted: numpy, jax.numpy.asarray, pickle. Generator stub answers integers/uniform/choice only.",
    technique="deterministic simulation: seeded operation/fault histories vs reference model, generator seam"),
+ "C04": dict(level="exploration", engine="BufferSim", design="§4 C04",
+   text="Seeded search over add histories (terminated / truncated / both, one-step and short episodes, wrap-around) of the sub-trajectory buffers; after plan-chosen operations every admissible start is enumerated through the generator seam for every sampling horizon, with and without intermediates, and every returned window is decoded from unique tags and checked for contiguity, single episode, no truncated step, written rows only, reduced view = full view.",
+   note="Rows after the first terminated step are only required to be stored rows. Completeness of the admissible set is a probe, not a verdict.",
+   technique="deterministic simulation: seeded operation histories, exhaustive start enumeration through generator seam, tag oracle"),
+ "C08": dict(level="exploration", engine="BufferSim", design="§4 C08",
+   text="Seeded search over add / sample / update_priority / reset_max / restart / select-task histories of LAP, PER, prioritised sub-trajectory buffer and their multi-task wrapper; the proportional law is decided exactly (order-free, +-2 counts on an equidistant grid of variates fed through the generator seam), and priority bookkeeping is decided through that same law after every operation; importance weights against the closed form.",
+   note="Assumes each index's pre-image under the sampler is an interval of the variate. Updates whose batch was overwritten between sample and update are not generated (interpretation, DESIGN §4 C08).",
+   technique="deterministic simulation: seeded operation histories, generator-seam variate sweep vs cumulative-interval oracle"),
+ "C19": dict(level="fault_enumeration", engine="BufferSim twins + ModuleSim", design="§4 C19",
+   text="Fault = restart (serialise, discard, reload) injected at arbitrary prefixes of operation histories: the reloaded buffer and a never-reloaded twin receive the same continuation and must agree bitwise on every observable; the saved original is still checked against the reference.",
+   note="Torn or failing writes are not injected (the property promises nothing about them). pickle / Orbax / file system are real and trusted.",
+   technique="deterministic simulation with restart faults: twin continuation, bitwise comparison"),
 }
 NA = {
  "C12": "pure value/gradient identities of single loss calls; no schedule, clock, fault or retained state for a simulator to control",
